@@ -292,3 +292,32 @@ def super_init_forwards(ctx, rel, rule, min_classes=1):
                + ("its default there" if missing and missing[0] not in bound else "another value") + ")", c.lineno)
     ctx.floor(f"{rule}:{rel}", n, min_classes)
     return n
+
+
+def out_params_written(ctx, rel, rule, min_funcs=1):
+    """lowered Cython: a C function that reports a result through a pointer parameter (`int32* score`; some path stores
+    `score[0] = ..`) stores it on EVERY path to a return - the caller's variable otherwise keeps whatever was in it"""
+    from .cfg import CFG
+    s = ctx.src(rel)
+    n = 0
+    for q, f in s.funcs.items():
+        cf = s.low.funcs.get(q) if s.low is not None else None
+        if cf is None:
+            continue
+        ptr_params = [p for p, t, _ in cf.params if t.replace(" ", "").endswith("*") and "[" not in t]
+        for p in ptr_params:
+            def stores(node):
+                return node is not None and isinstance(node, (ast.Assign, ast.AugAssign)) and any(
+                    isinstance(t, ast.Subscript) and isinstance(t.value, ast.Name) and t.value.id == p
+                    for t in (node.targets if isinstance(node, ast.Assign) else [node.target]))
+            if not any(stores(x) for x in ast.walk(f)):
+                continue            # an input pointer
+            n += 1
+            g = CFG(f, lambda st: isinstance(st, ast.Raise))
+            writers = {nd.id for nd in g.nodes if nd.kind == "stmt" and stores(nd.ast)}
+            path = g.path(g.entry.id, g.exit.id, blocked=writers)
+            ctx.ob(rule, rel, q, f"*{p} written on every path to a return", path is None,
+                   f"a return is reachable without `{p}[0] = ..`: the caller's variable keeps its previous content (e.g. the score of the other "
+                   "direction is counted twice)", f.lineno)
+    ctx.floor(f"{rule}:{rel}", n, min_funcs)
+    return n
